@@ -153,6 +153,7 @@ structure StepOK (bb : Option Name) (P : List Obj) (w1 : World) (r : StepRec) : 
   asked : askedClause P r = true
   bind : bindClause r = true
   fp : fpClause r = true
+  voc : voClause r = true
 
 theorem crashes_false {cs : List Creation} {S : List Obj} (hS : ∀ e ∈ S, e.uid ≠ none)
     (M : ∀ c ∈ cs, ∀ m, c.made = some m → getO S m.oid = some m) : crashes cs S = false := by
